@@ -99,7 +99,62 @@ add("C10", "model_checking",
     "entrywise non-negative factors / weights / core on exactly the declared modes.",
     "Bounds: order 2-4, rank<=3, K<=3 (6 thorough; 8-11 with line search). PARAFAC2 mode 1 not demanded (documented). Exact comparison (>= 0), no tolerance.", engine="HX")
 
-READY = ["C01", "C05", "C06", "C08", "C09", "C10", "C12", "C16", "C17", "C19", "C20"]
+add("C02", "exploration",
+    "bounded exhaustive enumeration of (operand orders/shapes x modes x option combinations x real/complex) under both tenalg backends against exact integer index-formula references",
+    "Every operand configuration of the bounded lattice for mode_dot, multi_mode_dot (every ordered subset of modes, every skip), kronecker, khatri_rao (weights, mask, skip, single "
+    "matrix), inner, outer, batched_outer, batched tensordot (every contraction/batch pairing), MTTKRP (both variants), sample_khatri_rao (every explicit index list) and "
+    "higher_order_moment is executed through tenalg.set_backend('core'|'einsum') with harness-side wrappers confirming which implementation ran; results are compared with == "
+    "against pure-python integer / Gaussian-integer formulas.",
+    "Bounds: order<=4(5), dims<=3(4), rank<=3(4). Exact arithmetic (all partial sums < 2^53). Not demanded: conjugation of weights, behaviour for arguments the docstrings exclude.")
+
+add("C03", "exploration",
+    "bounded exhaustive enumeration of factor-set structures (orders, mode sizes, every rank vector, weights, masks, uneven PARAFAC2 slices) x views x backends x container kinds against exact integer references; every single structural perturbation must be rejected",
+    "CP / Tucker / TT / TR / TT-matrix / PARAFAC2 structures of the bounded lattice: dense conversion, every unfolding, vec, matrix and slice views, shape/rank, factor-based norm are "
+    "compared (==, exact integers) with loop-level definitions under both tenalg backends and for tuple/list vs wrapper inputs; each valid structure is perturbed in every structural "
+    "way and the validating entry points must raise.",
+    "Bounds: order<=4(5), dims<=3(4), ranks<=3(4). Not demanded: validation by the raw non-validating helpers (tt_to_tensor(list) etc.).")
+
+add("C04", "exploration",
+    "bounded exhaustive enumeration of factorised tensors with degenerate column patterns x transforms, dense-before == dense-after plus canonical-form predicates",
+    "Nine transform families (cp_normalize, cp_flip_sign for every mode and summary, cp/tucker mode_dot with matrix/vector/keep_dim/copy, tucker_normalize, parafac2_normalise, "
+    "from_CPTensor, pad_tt_rank for TT/TR/TT-matrix, svd compress->decompress, cp_permute_factors under every permutation and scaling) over every per-column kind in {generic, zero, "
+    "zero-mean, all-negative} and six weight classes: the dense tensor is unchanged (exact for sign flips / mode products on integers) and the advertised canonical form holds.",
+    "Bounds: order<=3(4), rank<=3. Tolerance 1e-12*scale (normalisation), 1e-9 (SVD paths). Input mutation is judged by C15, not here.")
+
+add("C07", "model_checking",
+    "exploration of the iteration chains s_0..s_K (prefix runs) of the exact block-coordinate algorithms with a transition monitor (objective recomputed from scratch must not increase) and a differential reference sweep from every non-initial state",
+    "CP-ALS (plain, normalised, line search, l2, fixed mode, masked), HALS-NNCP, HOOI, PARAFAC2 (+nn, +line search), TR-ALS, CMTF, the CP/Tucker ridge regressors and the inner sweeps of "
+    "hals_nnls (through its callback): for every transition s_k -> s_k+1 of every configuration the objective must not increase; for CP-ALS and HOOI a boring numpy reference sweep "
+    "applied to s_k must reproduce s_k+1.",
+    "Guard (counted): block Gram condition number <= 1e8. Tolerance f(s')<=f(s)(1+1e-9)+1e-12*scale; reference sweeps 1e-7 relative (skipped on singular-value ties).", engine="HX")
+
+add("C11", "exploration",
+    "bounded exhaustive enumeration of (constraint x specification form x every mode subset x parameters x data x rank x init x outer/inner budgets), all pairs of constraints on disjoint modes, and every conflicting pair (must raise); feasibility oracle per constrained mode",
+    "All 8 hard constraints in scalar / list / dict form over every non-empty subset of modes, all 28 pairs on every pair of disjoint mode sets, and all 66 keyword pairs on "
+    "intersecting mode sets (must raise ValueError): the factor of every constrained mode is checked for feasibility (>=0; on the simplex; monotone; unimodal; <=k non-zeros; unit norm "
+    "k-sparse; max|.|=1; l1<=threshold).",
+    "Bounds: order 3-4, rank<=3, budgets {1,2,5}x{1,5,10}. Tolerances 1e-12*scale (inequalities), 1e-9 (equalities). Monotone direction free but common to all columns; LinAlgError on degenerate problems guarded (counted).")
+
+add("C14", "model_checking",
+    "exploration of iteration chains started from user initialisations (every weight class, container kind, subset of fixed modes, budget 0..K) with zero-budget, bisimulation (weights absorbed into a factor) and bit-identity-of-fixed-factors monitors",
+    "For the seven algorithms accepting an initialisation: n_iter_max=0 must return the tensor the init represents; the chain from init and the chain from the same tensor with the "
+    "weights absorbed into the first / last factor must have equal dense iterates for every k; factors of fixed modes must be bit-identical in every iterate; fixing every mode returns the init.",
+    "Bounds: order 3-4, rank<=3, K<=2 (4 thorough). Bisimulation only for exact / multiplicative / HALS updates (ADMM agrees only in the limit). Fixing the last mode not demanded where documented unsupported.", engine="HX")
+
+add("C15", "exploration",
+    "catalogue-driven exhaustive enumeration of (public entry point x option set x size x array layout incl. read-only x container kind x normal/exceptional exit) with byte-level before/after snapshots of every argument",
+    "182 catalogued entry points (completeness checked by introspection: 0 uncatalogued in-scope callables) x 655 option sets x layouts (fresh, transposed view, strided view in a "
+    "sentinel buffer, read-only) x tuple/list/wrapper containers x normal and forced-exception exits: bytes, dtype, shape, strides of every reachable array and the identity/length of "
+    "every list slot are compared before and after the call.",
+    "Exempt by name: copy=False mode products, the hals_nnls start matrix, index_update, self of the documented self-modifying normalize methods. A slot rebound to a bit-identical value is counted, not reported.")
+
+add("C18", "exploration",
+    "catalogue-driven exhaustive enumeration of (array-returning entry point x option/initialisation variant x dtype x tenalg backend), walking every returned array",
+    "149 entry points x option variants (svd/random/user init, masks, normalisation, every constraint of constrained CP, every NNLS algorithm) x {float32, float64, complex128 where supported} "
+    "x both tenalg backends: every array of the returned structure must have the input's floating dtype.",
+    "Exempt: error lists, integer/bool outputs, leverage scores (float64 by documentation); real-valued roles of complex inputs may be float64.")
+
+READY = ["C01", "C02", "C03", "C04", "C05", "C06", "C07", "C08", "C09", "C10", "C11", "C12", "C14", "C15", "C16", "C17", "C18", "C19", "C20"]
 for _p in list(CHECKS):
     if _p not in READY:
         del CHECKS[_p]
